@@ -67,6 +67,8 @@ type Cut struct {
 	Ord    int
 	After  bool // assumption applies after the anchored statement
 	Forget []string // variables whose definition is forgotten after the cut (abstraction point)
+	Havoc  []ast.Expr // assume ... havoc t1, t2: locations the anchored statement may change behind the contracts' back
+	HavocText string
 }
 
 type LemmaParam struct {
@@ -366,6 +368,37 @@ func (c *Contract) addClause(kw, text, src string) error {
 		}
 		anchor := t[1 : 1+end]
 		rest := strings.TrimSpace(t[end+2:])
+		var havoc []ast.Expr
+		havocText := ""
+		if strings.HasPrefix(rest, "havoc ") {
+			// assume "<stmt>" havoc t1, t2: E -- the statement may change t1, t2 (modifies syntax) in ways
+			// its callees' contracts do not describe; they are havocked, then E is assumed
+			depth, cut := 0, -1
+			for i, r := range rest {
+				switch r {
+				case '[', '(':
+					depth++
+				case ']', ')':
+					depth--
+				case ':':
+					if depth == 0 && cut < 0 {
+						cut = i
+					}
+				}
+			}
+			if cut < 0 {
+				return fmt.Errorf("%s: assume ... havoc: missing ':'", src)
+			}
+			havocText = strings.TrimSpace(rest[6:cut])
+			for _, part := range splitTopLevel(havocText, ',') {
+				e, err := parseContractExpr(part)
+				if err != nil {
+					return fmt.Errorf("%s: assume havoc: %v", src, err)
+				}
+				havoc = append(havoc, e)
+			}
+			rest = rest[cut:]
+		}
 		if !strings.HasPrefix(rest, ":") {
 			return fmt.Errorf("%s: assume: missing ':'", src)
 		}
@@ -374,7 +407,7 @@ func (c *Contract) addClause(kw, text, src string) error {
 		if err != nil {
 			return err
 		}
-		c.Assumes = append(c.Assumes, &Cut{Anchor: anchor, Reveal: map[string]bool{}, Clause: cl, Ord: len(c.Assumes), After: true})
+		c.Assumes = append(c.Assumes, &Cut{Anchor: anchor, Reveal: map[string]bool{}, Clause: cl, Ord: len(c.Assumes), After: true, Havoc: havoc, HavocText: havocText})
 	case "cut":
 		// cut "<stmt prefix>" [reveal a, b]: E
 		t := strings.TrimSpace(text)
